@@ -67,8 +67,13 @@ func genProg(rng *rand.Rand, depth int, nops int, allowTransfer bool, self strin
 				p.TryTransfer(sn.VerifContract, sn.K(rng.Intn(4)).Address, "100000000")
 				kinds = append(kinds, "trytransfer(too-much)")
 			}
-			p.Transfer(sn.VerifContract, sn.K(rng.Intn(4)).Address, fmt.Sprint(1+rng.Intn(9)))
+			to, amt := sn.K(rng.Intn(4)).Address, fmt.Sprint(1+rng.Intn(9))
+			p.Transfer(sn.VerifContract, to, amt)
 			kinds = append(kinds, "transfer")
+			if rng.Intn(3) == 0 { // the same payment once more: two identical contract-originated outputs
+				p.Transfer(sn.VerifContract, to, amt)
+				kinds = append(kinds, "transfer(same-again)")
+			}
 		default:
 			p.Put(b, k, []byte(fmt.Sprintf("w%d", rng.Intn(100000)))).Get(b, k)
 			kinds = append(kinds, "putget")
@@ -360,6 +365,28 @@ func (e *env) program(rng *rand.Rand, i int, block *[]*pb.Transaction) {
 	_ = contract.MaxLimits
 }
 
+func sameOutputMultiset(a, b []*protos.TxOutput) bool {
+	if len(a) != len(b) {
+		return false
+	}
+	cnt := map[string]int{}
+	key := func(o *protos.TxOutput) string {
+		return fmt.Sprintf("%s|%s|%d", o.ToAddr, new(big.Int).SetBytes(o.Amount), o.FrozenHeight)
+	}
+	for _, o := range a {
+		cnt[key(o)]++
+	}
+	for _, o := range b {
+		cnt[key(o)]--
+	}
+	for _, v := range cnt {
+		if v != 0 {
+			return false
+		}
+	}
+	return true
+}
+
 func sameMap(a, b map[string]string) bool {
 	if len(a) != len(b) {
 		return false
@@ -500,8 +527,11 @@ func mustReject(it corpus.Item, m mutate.Mutant) (bool, string) {
 		}
 		return false, ""
 	case "TxOutputs", "TxInputs":
-		if it.Name != "contract-originated-transfer" {
+		if !strings.HasPrefix(it.Name, "contract-originated-transfer") {
 			return false, "" // ordinary token fields: C07 / C02
+		}
+		if field == "TxOutputs" && sameOutputMultiset(it.Tx.TxOutputs, m.Msg.(*pb.Transaction).TxOutputs) {
+			return false, "" // repeated payments: replacing one by a copy of its twin changes nothing
 		}
 		// the contract pays: every token input / output of this transaction is contract-originated
 		if strings.HasSuffix(path, ".ToAddr") || strings.HasSuffix(path, ".Amount") || strings.HasPrefix(kind, "drop") || strings.HasPrefix(kind, "dup") || kind == "append-fresh" {
